@@ -74,9 +74,17 @@ class Amuset(probe.Contract):
                     c.skip('amuset_hosvd_truncation_effective')
                     return
         else:
+            # AMUSEt works on the cross approximation of the transformed data tensor: where that decomposition is exact the clauses
+            # below are decided; where the oracle of the decomposition could not decide (ranks below the true ranks, sampled columns
+            # deficient, no spectral gap) or found it exact only to cross-approximation accuracy, nothing is claimed; where it DECIDED
+            # that the decomposition is wrong, AMUSEt (HOCUR variant) works on a wrong tensor and the statement is broken here as well
+            if LAST_HOCUR.get('wrong'):
+                c.check(self.api, 'works_on_the_transformed_data_tensor', False, ['batch' if batch else 'single'], {'decomposition': LAST_HOCUR['wrong'], 'modes': n, 'snapshots': m}, prop=P)
+                return
             if LAST_HOCUR.get('exact') is not True:
                 c.skip('amuset_hocur_decomposition_not_exact')
                 return
+            c.check(self.api, 'works_on_the_transformed_data_tensor', True, ['batch' if batch else 'single'], prop=P)
         for k, (xi, yi) in enumerate(zip(xs, ys)):
             xi, yi = np.asarray(xi), np.asarray(yi)
             Px, Py = Psi[:, xi], Psi[:, yi]
